@@ -72,7 +72,13 @@ func runCase(t *testing.T, run *core.Run, name string, idx int, rng *rand.Rand) 
 		seq++
 		to := crypto.NewAddressFromBytes(crypto.Hash([]byte(fmt.Sprintf("%s/%d", name, seq)))[:20])
 		amt := uint64(1_000 + seq)
-		tx, e := fsm.NewSendTransaction(s.key, to, amt, node.NetworkID, 1, 10000, nd.Height(), memo)
+		// every other payment is dated in the future (inside the acceptance window): it is included now, and everything that
+		// is re-offered afterwards arrives at heights still below its creation height
+		created := nd.Height()
+		if seq%2 == 1 {
+			created += uint64(40 + seq%7)
+		}
+		tx, e := fsm.NewSendTransaction(s.key, to, amt, node.NetworkID, 1, 10000, created, memo)
 		if e != nil {
 			t.Fatal(e)
 		}
